@@ -112,7 +112,11 @@ class RustMagicNumberAnalyzer(RustBaseAnalyzer):
             "f32",
             "f64",
         )
+        # In a hexadecimal literal "f32"/"f64" are digits, not a float type suffix (0xaf32)
+        is_hex = text.lower().startswith("0x")
         for suffix in suffixes:
+            if is_hex and suffix.startswith("f"):
+                continue
             if text.endswith(suffix):
                 return text[: -len(suffix)]
         return text
